@@ -357,6 +357,104 @@ def c09_stage(ctx):
     return st.done()
 
 
+def c09_concurrent_stage(ctx):
+    st = Stage('C09', 'concurrent-durability', 'rounds of 4-8 mutating operations (add, update, set-admin, remove; one user each) started at the same moment '
+               'on separate OS threads of one process that share the store directory (one shared handle or one per thread), traced with strace -ff -ttt -T while the return '
+               'of every fsync is delayed so that directory syncs of different operations are in flight together; for every operation that reported success, each of its '
+               'entry changes under a final name (rename, unlink in the base directory) must be followed by a successful fsync of the base directory that was ENTERED after '
+               'the entry change returned and that returned before the acknowledgement (same thread: trace order; other threads: strace time stamps). '
+               'Non-trivial: an entry change of an operation whose window overlapped another operation\'s window; distinct by (round, operation)', ctx)
+    rounds = 6 if ctx.tier == 'quick' else 40
+    for r in range(rounds):
+        cid = 'round%d' % r
+        if getattr(ctx, 'only_case', None) and ctx.only_case != cid:
+            continue
+        try:
+            concurrent_round(st, cid, ctx.seed * 1000 + r, 4 + (r % 5))
+        except Exception:
+            import traceback
+            st.r.setdefault('harness_error', 'concurrent %s: %s' % (cid, traceback.format_exc()[-1500:]))
+    return st.done()
+
+
+def concurrent_round(st, cid, seed, n):
+    rdir = os.path.join(st.work, cid)
+    os.makedirs(rdir, exist_ok=True)
+    logp = os.path.join(rdir, 'trace-c')
+    rc, out = sc.strace_run([st.hx, 'scconc', os.path.join(rdir, 'store'), str(seed), str(n)], logp, inject='fsync:delay_exit=60000', env=st.env(),
+                            strsize=64, extra=['-ttt', '-T'])
+    if rc != 0:
+        raise RuntimeError('scconc rc=%s %s' % (rc, out[-400:]))
+    base = os.path.join(rdir, 'store', 'base')
+    threads = []
+    for fn in sorted(os.listdir(rdir)):
+        if fn.startswith('trace-c.'):
+            threads.append(sc.parse_thread_log(os.path.join(rdir, fn))[0])
+    dirsyncs = []   # (thread index, idx, t0, t1)
+    ops = []
+    for ti, sl in enumerate(threads):
+        cur = None
+        for s in sl:
+            if s.name in ('fsync', 'fdatasync') and s.ret == 0 and not s.unfinished:
+                fds = sc.fds_of(s.args)
+                if fds and os.path.normpath(fds[0][1]) == base:
+                    dirsyncs.append((ti, s.idx, s.t0, s.t1))
+            if s.name in ('faccessat', 'access', 'faccessat2') and 'verif-mark:C' in s.args:
+                mark = sc.strings_of(s.args)[0].decode()
+                parts = mark.split(':')
+                if parts[1] == 'CBEGIN':
+                    cur = {'thread': ti, 'bi': s.idx, 'begin': s.t0, 'i': parts[2], 'op': parts[3], 'user': parts[4], 'end': None, 'status': None}
+                elif parts[1] == 'CEND' and cur is not None:
+                    cur['ei'], cur['end'], cur['status'] = s.idx, s.t0, parts[2]
+                    ops.append(cur)
+                    cur = None
+    if len(ops) != n:
+        raise RuntimeError('%s: %d of %d operations found in the trace' % (cid, len(ops), n))
+    st.count('concurrent_rounds')
+    for o in ops:
+        st.count('concurrent_ops')
+        st.count('concurrent_result:%s:%s' % (o['op'], o['status']))
+        overl = any(p is not o and p['begin'] < o['end'] and o['begin'] < p['end'] for p in ops)
+        if overl:
+            st.count('concurrent_ops_overlapping')
+        if o['status'] != 'ok':
+            continue
+        sl = threads[o['thread']]
+        for s in sl[o['bi'] + 1:o['ei']]:
+            if s.unfinished or s.ret != 0:
+                continue
+            if s.name in ('rename', 'renameat', 'renameat2'):
+                strs = sc.strings_of(s.args)
+                tgt = strs[1].decode('utf-8', 'replace')
+                kind = 'rename'
+            elif s.name in ('unlink', 'unlinkat'):
+                tgt = sc.strings_of(s.args)[0].decode('utf-8', 'replace')
+                kind = 'unlink'
+            else:
+                continue
+            if os.path.dirname(os.path.normpath(tgt)) != base:
+                continue
+            st.case('%s/%s/%s/%s' % (cid, o['i'], o['op'], kind), overl)
+            st.count('concurrent_entry_obligations')
+            covered = False
+            for (ti, idx, f0, f1) in dirsyncs:
+                if ti == o['thread']:
+                    if s.idx < idx < o['ei']:
+                        covered = True
+                elif f0 is not None and f1 is not None and f0 >= s.t1 and f1 <= o['end']:
+                    covered = True
+                if covered:
+                    break
+            if not covered:
+                st.violate('c09:concurrent:entry-change-not-covered-by-directory-fsync:%s:%s' % (o['op'], kind),
+                           '%s of %s was acknowledged although no fsync of the base directory was entered after its %s of %s returned (and completed before the acknowledgement)'
+                           % (o['op'], o['user'], kind, os.path.basename(tgt)), cid,
+                           {'operation': {k: o[k] for k in ('i', 'op', 'user', 'begin', 'end')}, 'entry_change': s.raw, 'entry_returned_at': s.t1,
+                            'directory_fsyncs': [{'thread': ti, 'entered': f0, 'returned': f1} for (ti, idx, f0, f1) in dirsyncs]})
+    st.sample({'round': cid, 'operations': [(o['op'], o['user'], o['status']) for o in ops], 'directory_fsyncs': len(dirsyncs)})
+    shutil.rmtree(rdir, ignore_errors=True)
+
+
 def durability_scenario(st, scen, inject=None, tag=''):
     if inject is None:
         tdir, rdir, t = reference(st, scen)
